@@ -154,7 +154,7 @@ pub fn p384_key(r: &mut Rng) -> KeySpec {
 }
 
 pub fn rsa_key(r: &mut Rng) -> KeySpec {
-    KeySpec::Rsa { fixture: r.usize(crate::keys::RSA_FIXTURES.len()) }
+    KeySpec::Rsa { fixture: r.usize(crate::keys::RSA_2048_FIXTURES) }
 }
 
 pub fn key_for(proto: Proto, r: &mut Rng) -> KeySpec {
@@ -171,7 +171,7 @@ pub fn key_for(proto: Proto, r: &mut Rng) -> KeySpec {
 pub fn other_key_for(proto: Proto, k: &KeySpec, r: &mut Rng) -> KeySpec {
     loop {
         let c = match (proto, k) {
-            (Proto::V1P, KeySpec::Rsa { fixture }) => KeySpec::Rsa { fixture: (fixture + 1 + r.usize(crate::keys::RSA_FIXTURES.len() - 1)) % crate::keys::RSA_FIXTURES.len() },
+            (Proto::V1P, KeySpec::Rsa { fixture }) => KeySpec::Rsa { fixture: (fixture + 1 + r.usize(crate::keys::RSA_2048_FIXTURES - 1)) % crate::keys::RSA_2048_FIXTURES },
             _ => key_for(proto, r),
         };
         if &c != k {
@@ -205,6 +205,10 @@ const MULTI: [&str; 12] = ["é", "ß", "Ж", "中", "日本", "𝄞", "😀", "\
 pub fn gen_text(r: &mut Rng, len: usize) -> String {
     let class = r.below(6);
     let mut s = String::with_capacity(len + 4);
+    // sometimes a special first code point: byte-order mark, zero-width and bidi marks, whitespace
+    if len >= 3 && r.chance(1, 12) {
+        s.push(*r.pick(&['\u{feff}', '\u{200b}', '\u{200e}', '\u{202e}', '\u{2028}', ' ', '\t', '\n', '\r', '\u{a0}', '\u{0}', '\u{fffd}', '\u{10ffff}']));
+    }
     while s.len() < len {
         match class {
             0 => s.push((b'a' + r.below(26) as u8) as char),
@@ -319,7 +323,7 @@ pub const RESERVED: [&str; 7] = ["iss", "sub", "aud", "exp", "nbf", "iat", "jti"
 pub fn gen_key(r: &mut Rng) -> String {
     loop {
         let k = match r.below(8) {
-            0 => r.pick(&["data", "role", "uid", "scope", "a", "b", "Exp", "EXP", "iss ", " sub", "aud\0", "exp2", "nb", "n", "x.y", "k\"q", "k\\b", "a/b", "a~1b", "a~0b", "https://example.com/claims/seats", "/", "~", "0", "a/0"]).to_string(),
+            0 => r.pick(&["data", "role", "uid", "scope", "a", "b", "Exp", "EXP", "iss ", " sub", "aud\0", "exp2", "nb", "n", "x.y", "k\"q", "k\\b", "a/b", "a~1b", "a~0b", "https://example.com/claims/seats", "/", "~", "0", "a/0", " ", "  ", "\t", "\n", "\u{a0}", "\u{3000}", " role", "role ", "\u{feff}k"]).to_string(),
             1 => text!(r, 1 + r.usize(6)),
             _ => ascii!(r, 1 + r.usize(5)),
         };
@@ -381,7 +385,8 @@ pub fn gen_claim(r: &mut Rng, allow_time: bool, now: i128) -> ClaimSpec {
             let t = now - r.range(0, YEAR).min(now - T_1971);
             ClaimSpec::Iat(render_canonical(r, t))
         }
-        7 | 8 => ClaimSpec::Native { key: gen_key(r), val: gen_native(r) },
+        7 => ClaimSpec::Native { key: gen_key(r), val: gen_native(r) },
+        8 => ClaimSpec::CustomRef { key: gen_key(r), value: gen_json(r, 2) },
         _ => ClaimSpec::Custom { key: gen_key(r), value: gen_json(r, 3) },
     }
 }
